@@ -276,8 +276,11 @@ Section gen.
       let named_id := match s with TNamed id => Some id | _ => None end in
       let seen := match named_id with Some id => existsb (N.eqb id) (b_seen st) | None => false end in
       let conf := bc_conf ctx in
+      let skip := cc_SkipCopySameType conf && ty_eqb s t in   (* the SkipCopy rule handles it inline, however often the type occurs *)
+      let seen := seen && negb skip in
       let create :=
-        if seen then true
+        if skip then false
+        else if seen then true
         else if negb cur then
           let c := (f_Named e s && negb (f_Basic e s)) || (f_Named e t && negb (f_Basic e t))
                    || (f_Pointer e s && f_Named e (f_PointerInner e s) && negb (f_Basic e (f_PointerInner e s)))
@@ -676,7 +679,8 @@ Section gen.
     | O => fun _ => GFuel
     | S f =>
       fun st =>
-      match parse_automap (m_automap (bc_conf ctx)) s with
+      (* field settings (autoMap too) only apply to the target struct of the method they are written on *)
+      match parse_automap (if ty_eqb (bc_ftarget ctx) t then m_automap (bc_conf ctx) else []) s with
       | GDiag c => GDiag c | GPanic p => GPanic p | GFuel => GFuel
       | GOk additional =>
         let conf := bc_conf ctx in
@@ -735,7 +739,8 @@ Section gen.
              let noted_of (sel : selector) (ns : ty) (guard : bool) : list ty :=
                (match sel with SelPath _ WNone | SelWhole | SelMeth _ _ _ _ _ WNone => [] | _ => [ns] end) ++ (if guard && zero_renders ns then [ns] else []) in
              if fm_ignore fm then fields r defined' (FSkip :: acc) st
-             else if negb (exported name) && cc_IgnoreUnexported conf then fields r defined' (FSkip :: acc) st
+             else if negb (exported name) && cc_IgnoreUnexported conf && match fm_source fm, fm_func fm with [], None => true | _, _ => false end
+                  then fields r defined' (FSkip :: acc) st   (* an explicit map onto an unexported field is honoured *)
              else if negb (field_accessible name tpkg out_pkg) then GDiag D_UNEXPORTED
              else match fm_func fm with
              | Some fi =>
